@@ -1,0 +1,117 @@
+//go:build verif
+
+package tree
+
+// Read-only introspection used by the runtime monitors in /verif. Compiled only with -tags verif.
+// Nothing in here judges anything: it copies out what is physically in the nodes so that an
+// external monitor can.
+
+// VerifBranchFactor and friends are the shipped constants, so that a monitor can notice when they
+// change.
+const (
+	VerifBranchFactor = branchFactor
+	VerifMaxKVs       = maxKVs
+	VerifMinKVs       = minKVs
+)
+
+// VerifNode is a raw copy of one node.
+type VerifNode[K any, V any] struct {
+	// Identity of the node (holds the *node, comparable with ==).
+	Ptr any
+	// The node's own parent field (nil interface if the field is nil).
+	ParentField any
+	// The node this one was reached from during the walk (nil interface for the root).
+	ReachedFrom any
+	// Index in ReachedFrom's children that led here.
+	IdxInParent int
+	Depth       int
+	// Raw n field.
+	N int
+	// children[0] == nil
+	Leaf bool
+	// All slots, also the ones >= N.
+	Keys     [maxKVs]K
+	Values   [maxKVs]V
+	Children [branchFactor]any
+	// True if this node had already been reached by another path (it is then not descended again).
+	Revisited bool
+}
+
+// VerifTree is a raw copy of a whole tree in pre-order.
+type VerifTree[K any, V any] struct {
+	Size  int
+	Gen   int
+	Root  any
+	Nodes []VerifNode[K, V]
+}
+
+func verifPtr[K any, V any](x *node[K, V]) any {
+	if x == nil {
+		return nil
+	}
+	return x
+}
+
+func verifWalk[K any, V any](t *btree[K, V]) VerifTree[K, V] {
+	out := VerifTree[K, V]{
+		Size: t.size,
+		Gen:  t.gen,
+		Root: verifPtr(t.root),
+	}
+	seen := make(map[*node[K, V]]struct{})
+	var visit func(x *node[K, V], from *node[K, V], idx int, depth int)
+	visit = func(x *node[K, V], from *node[K, V], idx int, depth int) {
+		vn := VerifNode[K, V]{
+			Ptr:         verifPtr(x),
+			ParentField: verifPtr(x.parent),
+			ReachedFrom: verifPtr(from),
+			IdxInParent: idx,
+			Depth:       depth,
+			N:           int(x.n),
+			Leaf:        x.children[0] == nil,
+			Keys:        x.keys,
+			Values:      x.values,
+		}
+		for i := range x.children {
+			vn.Children[i] = verifPtr(x.children[i])
+		}
+		if _, ok := seen[x]; ok {
+			vn.Revisited = true
+			out.Nodes = append(out.Nodes, vn)
+			return
+		}
+		seen[x] = struct{}{}
+		out.Nodes = append(out.Nodes, vn)
+		if vn.Leaf {
+			return
+		}
+		n := int(x.n)
+		if n < 0 {
+			n = 0
+		}
+		if n > maxKVs {
+			n = maxKVs
+		}
+		for i := 0; i <= n; i++ {
+			if x.children[i] != nil {
+				visit(x.children[i], x, i, depth+1)
+			}
+		}
+	}
+	if t.root != nil {
+		visit(t.root, nil, 0, 0)
+	}
+	return out
+}
+
+// VerifWalk returns a raw copy of the tree behind m.
+func (m Map[K, V]) VerifWalk() VerifTree[K, V] { return verifWalk(m.t) }
+
+// VerifWalk returns a raw copy of the tree behind s.
+func (s Set[T]) VerifWalk() VerifTree[T, struct{}] { return verifWalk(s.t) }
+
+// VerifGen returns the structure generation counter of the tree behind m.
+func (m Map[K, V]) VerifGen() int { return m.t.gen }
+
+// VerifGen returns the structure generation counter of the tree behind s.
+func (s Set[T]) VerifGen() int { return s.t.gen }
